@@ -1396,3 +1396,5 @@ B('c06-loop-stack-not-cleared', 'C06', 'R17.a', CONTEXT,
 B('c08-has-jobs-never', 'C08', 'R08.a', JOBS,
   "    def get_current(self):\n        return self._active_agent",
   "    def get_current(self):\n        return self._active_agent if self._active_agent else None")
+B('c15-cells-sanitised-before-convert', 'C15', 'R15.e', MACHINE,
+  "            (xform_fn(color) for color in srce.as_list()))", "            (xform_fn(color) for color in srce.get_colors()))")
